@@ -4,7 +4,7 @@
 SID=$1; PID=$2; shift 2
 cd /repo && git diff --quiet || { echo "/repo has uncommitted changes"; exit 9; }
 git -C /repo apply /verif/seeded/$SID/patch.diff || { echo "patch does not apply"; exit 9; }
-cd /verif && ./check $PID "$@" > /verif/.scratch/seed_${SID}_${PID}.out 2>&1; RC=$?
+cd /verif && SYMX_EVIDENCE_DIR=/var/tmp/seed_ev ./check $PID "$@" > /verif/.scratch/seed_${SID}_${PID}.out 2>&1; RC=$?
 git -C /repo checkout -- .
 grep -E "^VIOLATION|^KNOWN|^HARNESS|^INCONCL" /verif/.scratch/seed_${SID}_${PID}.out | cut -c1-220 | head -8
 tail -1 /verif/.scratch/seed_${SID}_${PID}.out | cut -c1-300
